@@ -291,4 +291,95 @@ theorem feed_frame {k id : Nat} (hk : k < 256) (hid : id < 256) (hne : k ≠ id)
       · exact h5 p hp
     | _ => simp only [feed]; exact ih' dev faults net
 
+
+/-! ### the library's part of a closed-system run is a run of the library on some history -/
+
+def Act.WF : Act → Prop
+  | .read t i a l => (Ev.read t i a l).WF
+  | .write t i a d f p => (Ev.write t i a d f p).WF
+  | _ => True
+
+/-- the tag of a request action -/
+def Act.tag? : Act → Option Nat
+  | .read t _ _ _ => some t
+  | .write t _ _ _ _ _ => some t
+  | _ => none
+
+/-- tags of the write requests on memory `id`, in the order they were issued -/
+def accWActs (id : Nat) (acts : List Act) : List Nat :=
+  acts.filterMap fun
+    | .write t i _ _ _ _ => if i = id then some t else none
+    | _ => none
+
+theorem toEv_wf {a : Act} (ha : a.WF) {net : List Packet} {ev : Ev} (h : a.toEv net = some ev) : ev.WF := by
+  cases a with
+  | read t i ad l => cases h; exact ha
+  | write t i ad d f p => cases h; exact ha
+  | deliver i k =>
+    simp only [Act.toEv, Option.map_eq_some_iff] at h
+    obtain ⟨p, _, rfl⟩ := h; trivial
+  | inject c d => cases h; trivial
+  | drop => cases h; trivial
+
+theorem toEv_accW {a : Act} {net : List Packet} {ev : Ev} (h : a.toEv net = some ev) (id : Nat) :
+    accW id [ev] = accWActs id [a] ∧ [ev].filterMap Ev.tag? = [a].filterMap Act.tag? := by
+  cases a with
+  | read t i ad l => cases h; exact ⟨rfl, rfl⟩
+  | write t i ad d f p => cases h; exact ⟨rfl, rfl⟩
+  | deliver i k =>
+    simp only [Act.toEv, Option.map_eq_some_iff] at h
+    obtain ⟨p, _, rfl⟩ := h; exact ⟨rfl, rfl⟩
+  | inject c d => cases h; exact ⟨rfl, rfl⟩
+  | drop => cases h; exact ⟨rfl, rfl⟩
+
+theorem toEv_none_accW {a : Act} {net : List Packet} (h : a.toEv net = none) (id : Nat) :
+    accWActs id [a] = [] ∧ [a].filterMap Act.tag? = [] := by
+  cases a with
+  | deliver i k => exact ⟨rfl, rfl⟩
+  | _ => cases h
+
+theorem accWActs_cons (id : Nat) (a : Act) (as : List Act) : accWActs id (a :: as) = accWActs id [a] ++ accWActs id as := by
+  simp only [accWActs, List.filterMap_cons, List.filterMap_nil]
+  split <;> simp
+
+theorem runSys_cons (v : Variant) (y : Sys) (a : Act) (as : List Act) :
+    runSys v y (a :: as) = runSys v (stepSys v y a) as := rfl
+
+/-- projection: there is a history of calls into `Memory` with the same requests, in the same order, of which the
+library state and the outputs of the closed-system run are the result -/
+theorem runSys_project (y : Sys) (acts : List Act) (hwf : ∀ a ∈ acts, a.WF) :
+    ∃ evs, (∀ e ∈ evs, e.WF) ∧ (runSys Variant.fixed y acts).host = (run Variant.fixed y.host evs).1 ∧
+      (runSys Variant.fixed y acts).outs = y.outs ++ (run Variant.fixed y.host evs).2 ∧
+      (∀ id, accW id evs = accWActs id acts) ∧ evs.filterMap Ev.tag? = acts.filterMap Act.tag? := by
+  induction acts generalizing y with
+  | nil => exact ⟨[], by simp, rfl, by simp [runSys, run], fun _ => rfl, rfl⟩
+  | cons a as ih =>
+    rw [runSys_cons]
+    obtain ⟨evs, h1, h2, h3, h4, h5⟩ := ih (stepSys Variant.fixed y a) (fun x hx => hwf x (List.mem_cons_of_mem _ hx))
+    cases hev : a.toEv y.net with
+    | none =>
+      have hy : stepSys Variant.fixed y a = y := by simp [stepSys, hev]
+      rw [hy] at h2 h3
+      refine ⟨evs, h1, by rw [hy]; exact h2, by rw [hy]; exact h3, fun id => ?_, ?_⟩
+      · rw [accWActs_cons, (toEv_none_accW hev id).1, List.nil_append]; exact h4 id
+      · have : (a :: as).filterMap Act.tag? = [a].filterMap Act.tag? ++ as.filterMap Act.tag? := by
+          rw [← List.filterMap_append]; rfl
+        rw [this, (toEv_none_accW hev 0).2, List.nil_append]; exact h5
+    | some ev =>
+      have hh : (stepSys Variant.fixed y a).host = (step Variant.fixed y.host ev).st := by simp [stepSys, hev]
+      have ho : (stepSys Variant.fixed y a).outs = y.outs ++ (step Variant.fixed y.host ev).outs := by simp [stepSys, hev]
+      refine ⟨ev :: evs, ?_, ?_, ?_, fun id => ?_, ?_⟩
+      · intro e he
+        rcases List.mem_cons.1 he with rfl | he
+        · exact toEv_wf (hwf a (by simp)) hev
+        · exact h1 e he
+      · rw [h2, hh, run_cons]
+      · rw [h3, hh, ho, run_cons, List.append_assoc]
+      · rw [accW_cons, accWActs_cons, (toEv_accW hev id).1, h4 id]
+      · have e1 : (ev :: evs).filterMap Ev.tag? = [ev].filterMap Ev.tag? ++ evs.filterMap Ev.tag? := by
+          rw [← List.filterMap_append]; rfl
+        have e2 : (a :: as).filterMap Act.tag? = [a].filterMap Act.tag? ++ as.filterMap Act.tag? := by
+          rw [← List.filterMap_append]; rfl
+        rw [e1, e2, (toEv_accW hev 0).2, h5]
+
 end CfVerif.C06
